@@ -107,6 +107,9 @@ Router::Router(const unsigned int flags)
 Router::~Router()
 {
     m_currently_calling_destructors = true;
+    // Pin destructors queue ConnectionPinChange actions; nothing may be
+    // processed while the router is being torn down.
+    m_consolidate_actions = true;
 
     // Delete remaining connectors.
     ConnRefList::iterator conn = connRefs.begin();
@@ -466,6 +469,12 @@ void Router::processActions(void)
     bool notPartialTime = !(PartialFeedback && PartialTime);
     bool seenShapeMovesOrDeletes = false;
 
+    // Actions queued while this list is being processed (connector end
+    // updates of moved obstacles, pin changes of deleted obstacles) belong
+    // to this transaction: they must not re-enter processTransaction().
+    const bool consolidateActions = m_consolidate_actions;
+    m_consolidate_actions = true;
+
     m_transaction_start_time = clock();
     m_abort_transaction = false;
 
@@ -635,6 +644,7 @@ void Router::processActions(void)
     }
     // Clear the actionList.
     actionList.clear();
+    m_consolidate_actions = consolidateActions;
 }
 
 bool Router::processTransaction(void)
